@@ -177,6 +177,25 @@ func buildOpsFor() []*opT {
 		return digest(errs(w.W5.Issuer.Verify(tokens.Token{TokenType: 5, Nonce: a[0], Context: a[1], KeyID: a[2], Authenticator: a[3]})))
 	})
 
+	// single-argument forms (the other fields honest), so that every truncation of the field with its
+	// genuine tail lying behind it is tried (A2)
+	{
+		t1, _ := type1.UnmarshalPrivateToken(w.O1.Tokens[0])
+		t5, _ := type5.UnmarshalBatchedPrivateToken(w.O5.Tokens[0])
+		one("type1.Issuer.Verify(authenticator)", "authenticator", t1.Authenticator, func(b []byte) string {
+			return digest(errs(w.W1.Issuer.Verify(tokens.Token{TokenType: 1, Nonce: cp(t1.Nonce), Context: cp(t1.Context), KeyID: cp(t1.KeyID), Authenticator: b})))
+		})
+		one("type5.Issuer.Verify(authenticator)", "authenticator", t5.Authenticator, func(b []byte) string {
+			return digest(errs(w.W5.Issuer.Verify(tokens.Token{TokenType: 5, Nonce: cp(t5.Nonce), Context: cp(t5.Context), KeyID: cp(t5.KeyID), Authenticator: b})))
+		})
+		one("type1.Issuer.Verify(key id)", "keyID", t1.KeyID, func(b []byte) string {
+			return digest(errs(w.W1.Issuer.Verify(tokens.Token{TokenType: 1, Nonce: cp(t1.Nonce), Context: cp(t1.Context), KeyID: b, Authenticator: cp(t1.Authenticator)})))
+		})
+		one("type5.Issuer.Verify(nonce)", "nonce", t5.Nonce, func(b []byte) string {
+			return digest(errs(w.W5.Issuer.Verify(tokens.Token{TokenType: 5, Nonce: b, Context: cp(t5.Context), KeyID: cp(t5.KeyID), Authenticator: cp(t5.Authenticator)})))
+		})
+	}
+
 	// ---- request creation ----
 	p384blind := make([]byte, 48)
 	copy(p384blind[1:], mc.Fill(seedv, "c16-blind", 47))
